@@ -10,6 +10,7 @@ def run(ctx):
         for e in ('VerifC17Int', 'VerifC17Uint', 'VerifC17Scalars'):
             hs.append(H(e, 'pkg/utils/%s/values' % ver, f, unwind=20, timeout_ms=300000))
         # leaf-lists: the variable-length big.Int encodings are concatenated and re-sliced: case split on every length
+        hs.append(H('VerifC17LeafListOther', 'pkg/utils/%s/values' % ver, f, unwind=20, timeout_ms=300000, opts={'big_bytes_split': True}))
         hs.append(H('VerifC17LeafListUint', 'pkg/utils/%s/values' % ver, f, unwind=20, timeout_ms=300000, opts={'big_bytes_split': True}))
     if ctx.only:
         hs = [h for h in hs if h.entry in ctx.only]
